@@ -46,6 +46,26 @@ termination of the chunked `loop` (fuel `src.len() + 1` is never exhausted). -/
 theorem C19_no_panic_payload_decode (k : Chunk.Kind) (src : List Nat) :
     NoPanic (Chunk.decode k src) := Chunk.decode_noPanic k src
 
+/-- **C19_no_panic_body_all_segmentations**: for *every* list of segments (every way of cutting
+every byte stream, including empty segments) fed to any reachable decoder register
+(`Length(n)`, `Eof`, `Chunked(state, size)` with `state = Body → size > 0`), draining after each
+segment as `h1::Codec` does: no panic, and the model's fuel (`buffer + 2` decode calls per
+segment) is never exhausted, because every delivered chunk consumed at least one byte. -/
+theorem C19_no_panic_body_all_segmentations (segs : List (List Nat)) (k : Chunk.Kind)
+    (buf : List Nat) (acc : Nat) (hk : Chunk.KInv k) : NoPanic (Chunk.feed k buf acc segs) :=
+  Chunk.feed_noPanic segs k buf acc hk
+
+example : Chunk.KInv (.chunked .size 0) ∧ Chunk.KInv (.length 18446744073709551615) := by
+  constructor <;> simp [Chunk.KInv, Chunk.SInv]
+
+/-- **C19_body_decode_progress**: one `decode` call keeps the register reachable, never grows
+the buffer and consumes ≥ 1 byte whenever it delivers a chunk. -/
+theorem C19_body_decode_progress (k : Chunk.Kind) (src : List Nat) (k' : Chunk.Kind)
+    (src' : List Nat) (item : Chunk.Item) (hk : Chunk.KInv k)
+    (h : Chunk.decode k src = .ok (k', src', item)) :
+    Chunk.KInv k' ∧ src'.length ≤ src.length ∧ (Chunk.isChunk item = true → src'.length < src.length) :=
+  Chunk.decode_facts k src k' src' item hk h
+
 /-- **C19_no_panic_content_length** + **C19_content_length_is_u64** -/
 theorem C19_no_panic_content_length (v : List Nat) : NoPanic (Chunk.contentLength v) :=
   Chunk.contentLength_noPanic v
